@@ -45,10 +45,11 @@ type famState struct {
 type model struct {
 	fams   [2]famState
 	points int
-	alt    *altModel // the "as built" model used only to name known deviations (altmodel.go)
+	// the "as built" models used only to name known deviations (altmodel.go): without / with the end-marker defect
+	alts [2]*altModel
 }
 
-func newModel() *model { return &model{alt: newAlt()} }
+func newModel() *model { return &model{alts: [2]*altModel{newAlt(false), newAlt(true)}} }
 
 func (m *model) write(series string, t int64, v float64) {
 	f := &m.fams[t/familyMs]
@@ -71,13 +72,17 @@ func (m *model) write(series string, t int64, v float64) {
 		c.n++
 	}
 	m.points++
-	m.alt.write(series, t, v)
+	for _, a := range m.alts {
+		a.write(series, t, v)
+	}
 }
 
 // reopen: Close flushes every memory database; the in-memory index starts empty.
 func (m *model) reopen() {
 	m.flush()
-	m.alt.reopen()
+	for _, a := range m.alts {
+		a.reopen()
+	}
 }
 
 // flush ends the current place of every family that has one; it reports whether anything was flushed.
@@ -92,7 +97,9 @@ func (m *model) flush() bool {
 			any = true
 		}
 	}
-	m.alt.flush()
+	for _, a := range m.alts {
+		a.flush()
+	}
 	return any
 }
 
@@ -118,7 +125,9 @@ func (m *model) compact() {
 // compacted: the family's compaction job really ran (it merges every level-0 file with the overlapping level-1 files).
 func (m *model) compacted(fam int) {
 	m.fams[fam].l0 = 0
-	m.alt.compact(fam)
+	for _, a := range m.alts {
+		a.compact(fam)
+	}
 }
 
 func (m *model) hasMem() bool {
